@@ -148,8 +148,18 @@ func gen(t *rapid.T) Case {
 		cb.Once = rapid.IntRange(0, 3).Draw(t, "once") == 0
 		cb.Complete = rapid.IntRange(0, 3).Draw(t, "complete") == 0
 
-		if (cb.Once || cb.Complete) && rapid.IntRange(0, 2).Draw(t, "keep") == 0 {
+		if rapid.IntRange(0, 2).Draw(t, "keep") == 0 {
 			cb.KeepOutput = true
+
+			if !cb.Once && !cb.Complete {
+				// excluded by construction (counted): a callback that keeps the output and is
+				// neither once nor complete is selected again at once after every run, each run
+				// re-arms the timer and the send never returns (known finding
+				// keep-output-reruns-forever)
+				ev.Count("callbacks", "excluded_known:keep-output-reruns-forever", 1)
+
+				cb.Once = true
+			}
 		}
 
 		cb.NextTimeoutMS = rapid.SampledFrom([]int{0, 0, 30, 60}).Draw(t, "nextTimeout")
@@ -445,6 +455,10 @@ func run(c Case) ev.Verdict {
 			return v
 		}
 
+		if strings.Contains(v.Msg, "[runaway]") {
+			return v
+		}
+
 		v.Msg = fmt.Sprintf("%s [time scale %dx]", v.Msg, scale)
 	}
 
@@ -545,6 +559,12 @@ func run1(c Case, scale int) ev.Verdict {
 			}
 			mu.Unlock()
 
+			if spec.KeepOutput && !spec.Once && !spec.Complete {
+				// (the shape of the known finding keep-output-reruns-forever: keep the runaway
+				// recursion slow, its stack grows with every run)
+				time.Sleep(2 * time.Millisecond)
+			}
+
 			if spec.Reply != "" {
 				return drv.Channel.WriteAndReturn([]byte(spec.Reply), false)
 			}
@@ -621,9 +641,23 @@ func run1(c Case, scale int) ev.Verdict {
 
 	var got result
 
+	watchdog, runaway := 10*time.Second, false
+
+	for _, cb := range c.Callbacks {
+		if cb.KeepOutput && !cb.Once && !cb.Complete {
+			// this shape can run for ever on the library's side, which is not a matter of machine
+			// load: fifty times the timeout in force is verdict enough
+			watchdog, runaway = time.Duration(c.TimeoutMS)*50*time.Millisecond, true
+		}
+	}
+
 	select {
 	case got = <-done:
-	case <-time.After(10 * time.Second):
+	case <-time.After(watchdog):
+		if runaway {
+			return ev.Fail("[runaway] the send did not return within %v (timeout in force %d ms; a callback keeps the output and is neither once nor complete)", watchdog, c.TimeoutMS)
+		}
+
 		return ev.Verdict{OK: true, Infeasible: true, Classes: []string{"watchdog"}, Msg: "no result within 10 s real time"}
 	}
 
